@@ -85,7 +85,7 @@ Rle(inp) == IF inp = <<>> THEN <<>>
 -----------------------------------------------------------------------------
 (* The record table of the stream under test: known types 1, 2, 3.          *)
 (*   1: uint8  (static size 1, tlv.DUint8)                                  *)
-(*   2: variable-size bytes (dynamic record, any length)                    *)
+(*   2: []byte (any length, tlv.DVarBytes)                                  *)
 (*   3: uint16 (static size 2, tlv.DUint16)                                 *)
 KnownNums == {<<1>>, <<2>>, <<3>>}
 IsKnown(t) == t \in KnownNums
